@@ -415,7 +415,8 @@ package types
 //@   props C20
 //@   requires e != nil
 //@   modifies *
-//@   loop 1 invariant len(events) == len(listeners) && fresh(backing(events))
+//@   loop 1 invariant 0 <= n && n <= $i && len(events) == len(listeners) && fresh(backing(events))
+//@   loop 1 invariant forall k int :: 0 <= k && k < n ==> events[k] != nil
 //@   ensures [C20.add.none] len(listeners) == 0 ==> calls((*emmiter).addListeners) == 0
 //@   callsite (*emmiter).addListeners#1
 //@     assert [C20.add.nonnil] forall k int :: 0 <= k && k < len($listeners) ==> $listeners[k] != nil   // a nil listener is skipped, not registered as a nil entry
@@ -424,7 +425,8 @@ package types
 //@   props C20
 //@   requires e != nil
 //@   modifies *
-//@   loop 1 invariant len(events) == len(listeners) && fresh(backing(events))
+//@   loop 1 invariant 0 <= n && n <= $i && len(events) == len(listeners) && fresh(backing(events))
+//@   loop 1 invariant forall k int :: 0 <= k && k < n ==> events[k] != nil
 //@   callsite (*emmiter).addListeners#1
 //@     assert [C20.once.nonnil] forall k int :: 0 <= k && k < len($listeners) ==> $listeners[k] != nil
 //@     assert [C20.once.evt]    $evt == evt && len($listeners) <= len(listeners)
